@@ -133,6 +133,10 @@ def symbol_matrix(rnd):
                     lines = ([" ORG $%X" % org] if org is not None else []) + body
                     yield {"lines": L(*lines), "tag": "label", "meta": {"mn": mn, "form": form, "org": org, "late": late,
                                                                         "stmt": (1 if org is not None else 0) + (0 if late else 2)}}
+                if org is not None:
+                    # the label sits on the ORG statement itself (statement index 0, address = the origin)
+                    yield {"lines": L("LBL ORG $%X" % org, " NOP", " %s %s" % (mn, t)), "tag": "label",
+                           "meta": {"mn": mn, "form": form, "org": org, "late": False, "stmt": 2}}
 
 
 def expr_matrix(rnd):
